@@ -45,6 +45,14 @@ class AbstractDenseTimeOnlineInterpreter(AbstractOnlineInterpreter, DenseTimeInt
 
         return rob
 
+    def reset(self):
+        # the dense-time operations keep no reset logic of their own:
+        # rebuild them from the ast (nothing to do before the first update)
+        if getattr(self, 'online_operator_dict', None) is None:
+            return
+        self.set_ast(self.ast)
+        return
+
     def update_final(self, dataset):
         # check ast exists
         self.exist_ast()
